@@ -267,26 +267,44 @@ def p2(ctx):
         cfg = ctx.cfg(fi)
         du = DefUse(cfg)
         # resource variable: element 2 of _get_resource_from_environ(...)
-        rvar = None
-        for n in cfg.stmt_nodes():
-            if n.kind == "stmt" and isinstance(n.ast, ast.Assign) and isinstance(n.ast.targets[0], ast.Tuple):
-                v = unwrap_await(n.ast.value)
-                if isinstance(v, ast.Call) and (dotted(v.func) or "").endswith("_get_resource_from_environ"):
-                    e = n.ast.targets[0].elts[2] if len(n.ast.targets[0].elts) > 2 else None
-                    if isinstance(e, ast.Name):
-                        rvar = e.id
-        if rvar is None:
+        # resource variables: locals that hold component 2 (the resource) of what _get_resource_from_environ(...) returned -
+        # bound by tuple unpacking or read from the record it returns
+        rvars = []
+        for d_ in du.all_defs:
+            if d_.kind != "assign" or d_.value is None or d_.node is None:
+                continue
+            os_ = origins(du, d_.node, d_.value, tuple(d_.index))
+            if os_ and all(o.kind == "expr" and tuple(o.path) == (2,) and isinstance(unwrap_await(o.leaf), ast.Call)
+                           and (dotted(unwrap_await(o.leaf).func) or "").endswith("_get_resource_from_environ") for o in os_):
+                if d_.name not in rvars:
+                    rvars.append(d_.name)
+        if not rvars:
             raise AnalysisError("%s: resource variable not found" % q)
+        rvar = rvars[0]
         tests = [n for n in cfg.nodes if n.kind == "test" and isinstance(n.ast, ast.Call)
                  and (dotted(n.ast.func) or "").split(".")[-1] == "etag_matches"]
         if not tests:
             raise AnalysisError("%s: no etag_matches test" % q)
+        by_ast_ = {}
+        for n_ in cfg.nodes:
+            if n_.kind == "test":
+                by_ast_.setdefault(id(n_.ast), n_)
+
         def absent_cond(t_, pol_):
             """(test, polarity) says the addressed resource does not exist."""
-            if isinstance(t_, ast.Compare) and len(t_.ops) == 1 and isinstance(t_.left, ast.Name) and t_.left.id == rvar \
+            def is_res(x):
+                if isinstance(x, ast.Name) and x.id in rvars:
+                    return True
+                if isinstance(x, ast.Attribute):      # `target.resource is None`
+                    tn_ = by_ast_.get(id(t_))
+                    os2 = origins(du, tn_, x) if tn_ is not None else []
+                    return bool(os2) and all(o.kind == "expr" and tuple(o.path) == (2,) and isinstance(unwrap_await(o.leaf), ast.Call)
+                                             and (dotted(unwrap_await(o.leaf).func) or "").endswith("_get_resource_from_environ") for o in os2)
+                return False
+            if isinstance(t_, ast.Compare) and len(t_.ops) == 1 and is_res(t_.left) \
                     and isinstance(t_.comparators[0], ast.Constant) and t_.comparators[0].value is None:
                 return (isinstance(t_.ops[0], ast.IsNot) and not pol_) or (isinstance(t_.ops[0], ast.Is) and pol_)
-            if isinstance(t_, ast.Name) and t_.id == rvar:
+            if is_res(t_):
                 return not pol_
             return False
 
